@@ -274,7 +274,21 @@ pub fn run(ctx: &Ctx) {
     // remainder is the unfiltered remainder - over every seed message x storage-header variants x
     // a broad list of configurations (the drop decision itself is judged by the products above)
     {
-        let seeds: Vec<RefMsg> = seed_messages(Tier::Thorough).into_iter().chain((0..embedded_pattern_positions()).map(|p| embedded_pattern_message(p, p % 2 == 1, None, b"DLT\x01", "DLT\u{1}"))).collect();
+        let mut seeds: Vec<RefMsg> = seed_messages(Tier::Thorough).into_iter().chain((0..embedded_pattern_positions()).map(|p| embedded_pattern_message(p, p % 2 == 1, None, b"DLT\x01", "DLT\u{1}"))).collect();
+        // maximal and near-maximal messages of every payload kind (16-bit arithmetic on lengths)
+        for f in universe(Tier::Quick) {
+            if f.name == "u.boundary" {
+                for i in (0..f.size).step_by(4) {
+                    let mut m = (f.gen)(i);
+                    m.storage = None;
+                    seeds.push(m);
+                }
+            }
+        }
+        for l in [65_535usize, 65_534, 65_521, 65_520, 65_519, 65_500, 40_000] {
+            seeds.push(len_sweep_message(4, l - 8, false));
+            seeds.push(len_sweep_message(0, l - 14 - 7, true));
+        }
         let set = |v: &[&str]| -> Option<std::collections::HashSet<String>> { Some(v.iter().map(|s| s.to_string()).collect()) };
         let mut cfgs: Vec<(String, ProcessedDltFilterConfig)> = vec![];
         let base = || ProcessedDltFilterConfig { min_log_level: None, app_ids: None, ecu_ids: None, context_ids: None, app_id_count: 0, context_id_count: 0 };
